@@ -99,6 +99,13 @@ func c09Grid(delta int64) []gridPoint {
 			pts = append(pts, gridPoint{from: n.from, until: n.until, t: uint64(t.v), untilClass: n.c, tClass: t.c})
 		}
 	}
+	// anchoring time 0 is an anchoring time like any other
+	for _, n := range []struct {
+		from, until int64
+		c           string
+	}{{c09A, 0, "absent"}, {1, 0, "absent"}, {1, 5, "after-from"}, {0, 5, "until-only"}, {0, -50, "neg-until"}, {-5, 0, "neg-from"}, {-5, -1, "neg-both"}, {0, 0, "none"}} {
+		pts = append(pts, gridPoint{from: n.from, until: n.until, t: 0, untilClass: n.c, tClass: "zero"})
+	}
 	return pts
 }
 
